@@ -135,7 +135,7 @@ static const char* path_name(int p) {
 }
 static const int NPATHS = 17;
 // the same pixel type in the other planarity (homogeneous organisations) - or the same image type
-typedef std::conditional<(ORG <= 11 || ORG >= 25), gil::image<value_t, !is_planar_org, alloc_t>, image_t>::type other_image_t;
+typedef std::conditional<((ORG >= 1 && ORG <= 11 && ORG != 6) || ORG >= 25), gil::image<value_t, !is_planar_org, alloc_t>, image_t>::type other_image_t;   // (no planar form of a one-channel pixel)
 
 // a w x h source view with non-unit steps; constructing a planar image from a stepped planar view does not
 // instantiate upstream (uninitialized_copy_pixels needs plain planar iterators), so planar organisations
